@@ -681,6 +681,9 @@ func (prop) Run(c core.Case) core.Outcome {
 	}
 	const z = 6
 	var out core.Outcome
+	if o, ok := gap3Run(c); ok { // `dec`, `ucs`: the decoder / UCS-2 conversion called directly (gap3.go)
+		return o
+	}
 	switch c.Op {
 	case "parse", "fv", "file", "sec":
 		in := core.UnHex(c.Args["hex"])
